@@ -18,3 +18,8 @@ for f in sorted(glob.glob(os.path.join(HERE, "props", "C*.json"))):
         continue
     c["trusted_base"] = COMMON_TB + c.get("trusted_base", [])
     PROPS[os.path.basename(f)[:-5]] = c
+
+# properties whose hooks/fixes are committed in /repo and whose check passed there (coordinator-maintained)
+_ip = os.path.join(HERE, "integrated.txt")
+INTEGRATED = [l.strip() for l in open(_ip)] if os.path.exists(_ip) else sorted(PROPS)
+INTEGRATED = [p for p in INTEGRATED if p in PROPS]
